@@ -16,6 +16,8 @@
 
 static const int NSHARD = 48;
 static const int MAXT = 6;
+// wake-up values that do not fit 32 bits: the future is an intptr_t (a pointer or a 64-bit token)
+static const long FUT = 0x123456780000000L;
 
 // ------------------------------------------------------------------ per-execution log (one slot per thread: no harness races)
 struct Log
@@ -244,7 +246,7 @@ struct WaitProg : Program
             sched::spawn(
                 [this, nonempty] {
                     sched::wait_until(nonempty, "queue non-empty");
-                    unwait_one(head.get(), 7);
+                    unwait_one(head.get(), FUT + 7);
                     log.returned[1] = 1;
                 },
                 "waker");
@@ -263,9 +265,9 @@ struct WaitProg : Program
                 sched::spawn(
                     [this, nonempty] {
                         sched::wait_until(nonempty, "queue non-empty");
-                        unwait_one(head.get(), 100);
+                        unwait_one(head.get(), FUT + 100);
                         sched::wait_until(nonempty, "queue non-empty again");
-                        unwait_one(head.get(), 101);
+                        unwait_one(head.get(), -(FUT + 101));
                         log.returned[2] = 1;
                     },
                     "waker");
@@ -273,13 +275,13 @@ struct WaitProg : Program
                 sched::spawn(
                     [this, both] {
                         sched::wait_until(both, "both queued");
-                        unwait_one(head.get(), 100);
+                        unwait_one(head.get(), FUT + 100);
                         log.returned[2] = 1;
                         // nobody else may be woken: once the system is quiescent B must still be parked
                         sched::wait_idle();
                         b_parked_at_quiescence = (log.returned[1].load() == 0);
                         a_back_at_quiescence = (log.returned[0].load() == 1);
-                        unwait_one(head.get(), 200); // release B so that the execution ends
+                        unwait_one(head.get(), FUT + 200); // release B so that the execution ends
                     },
                     "waker");
             break;
@@ -289,9 +291,9 @@ struct WaitProg : Program
             sched::spawn(
                 [this, both, nonempty] {
                     sched::wait_until(both, "both queued");
-                    unwait_one(head.get(), 100);
+                    unwait_one(head.get(), FUT + 100);
                     sched::wait_until(nonempty, "one left");
-                    unwait_one(head.get(), 101);
+                    unwait_one(head.get(), -(FUT + 101));
                     log.returned[2] = 1;
                 },
                 "waker");
@@ -302,7 +304,7 @@ struct WaitProg : Program
             sched::spawn(
                 [this, both] {
                     sched::wait_until(both, "both queued");
-                    unwait_all(head.get(), 55);
+                    unwait_all(head.get(), FUT + 55);
                     log.returned[2] = 1;
                 },
                 "waker");
@@ -313,11 +315,11 @@ struct WaitProg : Program
             sched::spawn(
                 [this, nonempty] {
                     sched::wait_until(nonempty, "queue non-empty");
-                    unwait_all(head.get(), 55);
+                    unwait_all(head.get(), FUT + 55);
                     // whoever was not queued yet is served by a second round
                     sched::wait_until([this] { return !head->empty() || (log.returned[0] && log.returned[1]); },
                                       "straggler queued or everybody back");
-                    unwait_all(head.get(), 56);
+                    unwait_all(head.get(), -(FUT + 56));
                     log.returned[2] = 1;
                 },
                 "waker");
@@ -342,32 +344,32 @@ struct WaitProg : Program
         switch (variant)
         {
         case 0:
-            want(0, 7);
+            want(0, FUT + 7);
             break;
         case 1:
-            want(0, 100);
-            want(1, 101);
+            want(0, FUT + 100);
+            want(1, -(FUT + 101));
             break;
         case 4:
             // exactly one wake was issued over [A,B]: A (longest waiting) returns with it; at quiescence B is
             // still parked (nobody is woken spuriously); the clean-up wake then reaches B
-            want(0, 100);
-            want(1, 200);
+            want(0, FUT + 100);
+            want(1, FUT + 200);
             if (b_parked_at_quiescence != 1 || a_back_at_quiescence != 1)
                 mc::violation("C20." + name + ".spurious_or_lost", "at quiescence after ONE unwait_one: A back=%d, B still parked=%d (want 1,1)",
                               a_back_at_quiescence.load(), b_parked_at_quiescence.load());
             break;
         case 2:
-            want(1, 100); // the prioritised waiter is served first
-            want(0, 101);
+            want(1, FUT + 100); // the prioritised waiter is served first
+            want(0, -(FUT + 101));
             break;
         case 3:
-            want(0, 55);
-            want(1, 55);
+            want(0, FUT + 55);
+            want(1, FUT + 55);
             break;
         case 5:
             for (int id = 0; id < 2; id++)
-                if (log.returned[id] != 1 || (log.value[id] != 55 && log.value[id] != 56))
+                if (log.returned[id] != 1 || (log.value[id] != FUT + 55 && log.value[id] != -(FUT + 56)))
                     mc::violation("C20." + name + ".wrong_future", "waiter %d returned %d times with %ld", id, log.returned[id].load(),
                                   log.value[id].load());
             break;
